@@ -52,6 +52,27 @@ pub struct BlockInfo {
     pub(crate) parent: BlockId,
 }
 
+#[cfg(feature = "verif-hooks")]
+impl BlockInfo {
+    /// Builds a [`BlockInfo`] from its parts (verification harness only).
+    #[must_use]
+    pub fn verif_new(hash: BlockHash, parent: BlockId) -> Self {
+        Self { hash, parent }
+    }
+
+    /// Hash of the block (verification harness only).
+    #[must_use]
+    pub fn verif_hash(&self) -> &BlockHash {
+        &self.hash
+    }
+
+    /// Parent of the block (verification harness only).
+    #[must_use]
+    pub fn verif_parent(&self) -> &BlockId {
+        &self.parent
+    }
+}
+
 impl From<&Block> for BlockInfo {
     fn from(block: &Block) -> Self {
         BlockInfo {
